@@ -375,12 +375,9 @@ def index_case(ctx, be, kind, case, mo):
     sreq = sorted(set(tuple(tuple(p) for p in r) for r in mo[3]))
     all_blocks = set(itertools.product(*[list(zip(np.cumsum((0,) + c[:-1]).tolist(), np.cumsum(c).tolist())) for c in chunks]))
     spec = conv(dtype, np.array(mo[4], dtype=np.int64).reshape(exp_shape))
-    # tie: implementation vs model.  Only for non-empty selections: for empty ones the model follows the unrepaired
-    # _prune_chunks (findings C07-F2/F3; a repair "keep at least one chunk" changes what is requested there), and the
-    # theorems carry the non-empty guard anyway.  The property comparison below is made for every selection.
-    if empty:
-        pass
-    elif isinstance(out, Exception):
+    # tie: implementation vs model, for every selection (the model follows _prune_chunks as repaired by d72167c: the
+    # last remaining chunk of an axis is never dropped, so empty selections are served by a real chunk)
+    if isinstance(out, Exception):
         if mo[2][0] == 0 and not (kind == 'dict'):
             ctx.disagree(sig + 'symptom=tie_raised:%s' % type(out).__name__, case, repr(out)[:200], mo[2], 'raised, model has data', kind='tie')
     elif mo[2][0] == 0:
@@ -389,7 +386,7 @@ def index_case(ctx, be, kind, case, mo):
             ctx.disagree(sig + 'symptom=tie_data', case, out.ravel()[:8].tolist(), md.ravel()[:8].tolist(), 'data differs from model', kind='tie')
     elif kind != 'dict':
         ctx.disagree(sig + 'symptom=tie_data_vs_error', case, out.ravel()[:8].tolist(), mo[2], 'data, model has error', kind='tie')
-    if req != mreq and not isinstance(out, Exception) and not empty:
+    if req != mreq and not isinstance(out, Exception):
         ctx.disagree(sig + 'symptom=tie_requests', case, req[:6], mreq[:6], 'requested chunks differ from model', kind='tie')
     # property: implementation vs spec
     if isinstance(out, Exception):
